@@ -333,7 +333,14 @@ func (b *boundsCtx) phiRange(phi *ssa.Phi) (int64, int64) {
 	lo, hi := int64(posInf), int64(negInf)
 	okLo := true
 	for _, e := range phi.Edges {
-		if k, ok := constInt(e); ok {
+		k, ok := constInt(e)
+		if ex, isEx := e.(*ssa.Extract); !ok && isEx {
+			// the count a package decoder always returns (`pos, id = unpackUint16(b)`: 2)
+			if l := b.norm(ex); len(l.K) == 0 {
+				k, ok = l.C, true
+			}
+		}
+		if ok {
 			if k < lo {
 				lo = k
 			}
